@@ -96,6 +96,26 @@ Errors(u) == {
    "{\"b\": 1, \"a\": 2, \"c\": 3}[{\"y\": 1, \"x\": 2}]"
  }
 
+\* ---------------------------------------------------------------- order
+\* sets and maps whose members lie outside Lang.tla (floats, bytes, mixed types, many members): every way of
+\* showing their order must give the same text in every evaluation and every process
+Members == <<"0.5, 1.5, 2.5, 3.5, 4.5, 5.5, 6.5, 7.5, 8.5, 9.5",
+             "1, 2.5, \"a\", true, nil, 3, 0.25, \"b\", false, 10",
+             "100, 20, 3, 44, 5, 61, 7, 8, 9, 10, 11, 12, 13",
+             "\"k9\", \"k1\", \"k5\", \"k3\", \"k7\", \"k2\", \"k8\", \"k4\", \"k6\", \"k0\"",
+             "byte(3), byte(1), byte(2), 1, 2, 3, 1.0, 2.0",
+             "-0.5, 0.5, -1, 1, 0, -2.5, 2.5, 0.0">>
+OrderViews(m) == <<
+   Cat(<<"s := {", m, "}", NL, "print(s)", NL, "s">>),
+   Cat(<<"s := {", m, "}", NL, "print(list(s), string(s))", NL, "list(s)">>),
+   Cat(<<"s := {", m, "}", NL, "for x := range s {", NL, "print(x)", NL, "}", NL, "keys(s)">>),
+   Cat(<<"s := {", m, "}", NL, "for i, x := range s {", NL, "print(i, x)", NL, "}", NL, "sorted(list(s).map(func(x) { return string(x) }))">>),
+   Cat(<<"s := set([", m, "])", NL, "t := set([", m, "])", NL, "print(s.union(t), s.intersection(t))", NL, "s == t">>),
+   Cat(<<"l := [", m, "]", NL, "m := {}", NL, "for i, x := range l {", NL, "m[string(x) + \"_\" + string(i)] = x", NL, "}", NL, "print(m, keys(m))", NL, "for k, v := range m {", NL, "print(k, v)", NL, "}", NL, "m">>),
+   Cat(<<"import json", NL, "s := {", m, "}", NL, "print(try(func() { return string(json.marshal(list(s))) }, func(e) { return string(e) }))", NL, "'{s}'">>)
+ >>
+Order(u) == UNION {{OrderViews(Members[k])[j] : j \in 1..7} : k \in 1..Len(Members)}
+
 \* ---------------------------------------------------------------- scale
 Sizes == {1, 2, 3, 9, 10, 11, 12, 16, 17, 33, 64, 99, 100, 101, 128, 129, 255, 256, 257, 300}
 DepthSizes == {1, 2, 3, 5, 8, 10, 11, 12, 16}
